@@ -24,10 +24,11 @@ type c01vCell struct {
 	SerialW  int    `json:"serial_bytes"`
 	EntryExt bool   `json:"entry_ext"`
 	Storage  string `json:"storage"`
+	Negative bool   `json:"negative_serial"` // high bit set in the first serial octet (certificate and CRL entry)
 }
 
 func (c c01vCell) key() string {
-	return fmt.Sprintf("%s/%s/%s/%d/%s/%s/%d/%v/%s", c.Mode, c.Ocsp, c.Source, c.Size, c.Pos, c.Enc, c.SerialW, c.EntryExt, c.Storage)
+	return fmt.Sprintf("%s/%s/%s/%d/%s/%s/%d/%v/%s/neg=%v", c.Mode, c.Ocsp, c.Source, c.Size, c.Pos, c.Enc, c.SerialW, c.EntryExt, c.Storage, c.Negative)
 }
 
 func c01Validator(r *Run) {
@@ -50,7 +51,7 @@ func c01Validator(r *Run) {
 	for i := 0; i < n; i++ {
 		// co-prime strides: every pair of coordinates meets in all combinations over the run
 		cells = append(cells, c01vCell{Mode: modes[i%4], Ocsp: ocsps[(i/4+i)%6], Source: sources[(i/2+i/24)%3], Size: sizes[(i+i/5)%5], Pos: poss[(i+i/7)%7],
-			Enc: encs[(i+i/3)%3], SerialW: widths[(i+i/11)%5], EntryExt: i%2 == 0, Storage: []string{"memory", "disk"}[(i/3)%2]})
+			Enc: encs[(i+i/3)%3], SerialW: widths[(i+i/11)%5], EntryExt: i%2 == 0, Storage: []string{"memory", "disk"}[(i/3)%2], Negative: i%5 == 3})
 	}
 	parallel(len(cells), 12, func(i int) {
 		// one CA per cell: the OCSP cache is shared by all validators of the process and keyed by issuer and serial
@@ -83,6 +84,10 @@ func c01vRun(r *Run, ca *CA, origin *Origin, caFile, dir string, idx int, c c01v
 		lo.CDP = []string{origin.URL(crlPath)}
 	}
 	leaf := ca.IssueLeaf(lo)
+	if c.Negative {
+		leaf.Cert = reissueWithNegativeSerial(ca, leaf.Cert)
+		serial = leaf.Cert.SerialNumber
+	}
 	switch c.Ocsp {
 	case "good":
 		origin.SetBytes(ocspPath, ca.OCSPResponse(OCSPOpts{Status: ocsp.Good, Serial: serial}))
